@@ -222,7 +222,8 @@ qb_log_blackbox_print_from_file(const char *bb_filename)
 	qb_ringbuffer_t *instance;
 	ssize_t bytes_read;
 	int max_size = 2 * QB_LOG_MAX_LEN;
-	char *chunk;
+	size_t slack = sizeof(long long) * (QB_LOG_MAX_LEN + 1);
+	char *chunk = NULL;
 	int fd;
 	int err = 0;
 	int saved_errno;
@@ -262,7 +263,14 @@ qb_log_blackbox_print_from_file(const char *bb_filename)
 	if (instance == NULL) {
 		return -EIO;
 	}
-	chunk = malloc(max_size);
+	/*
+	 * A damaged record may lack string terminators or arguments its
+	 * format asks for.  Each conversion consumes at most
+	 * sizeof(long long) bytes or a string, and a format holds fewer than
+	 * QB_LOG_MAX_LEN conversions: a zeroed tail of that size behind the
+	 * chunk keeps the decoding inside the buffer.
+	 */
+	chunk = malloc(max_size + slack);
 	if (!chunk) {
 		goto cleanup;
 	}
@@ -282,6 +290,10 @@ qb_log_blackbox_print_from_file(const char *bb_filename)
 		char message[QB_LOG_MAX_LEN];
 
 		bytes_read = qb_rb_chunk_read(instance, chunk, max_size, 0);
+		if (bytes_read >= 0) {
+			memset(chunk + bytes_read, 0,
+			       max_size + slack - bytes_read);
+		}
 
 		if (bytes_read >= 0 && bytes_read < BB_MIN_ENTRY_SIZE) {
 			printf("ERROR Corrupt file: blackbox header too small.\n");
